@@ -20,6 +20,8 @@ from concurrent.futures import ThreadPoolExecutor
 
 ROOT = os.path.dirname(os.path.dirname(os.path.abspath(__file__)))
 PY = os.path.join(ROOT, '.venv', 'bin', 'python')
+if not os.path.exists(PY):          # a snapshot of /verif (vp run) has no venv of its own
+    PY = '/verif/.venv/bin/python'
 EVID = os.path.join(ROOT, 'evidence')
 KF_FILE = os.path.join(ROOT, 'known_findings.json')
 
@@ -61,7 +63,7 @@ class Ob:
 def run_worker(mode, module, fn, arg, params, hard_timeout):
     env = dict(os.environ)
     env['VPX_PARAMS'] = json.dumps(params)
-    env['PYTHONPATH'] = ROOT
+    env['PYTHONPATH'] = (os.environ['VPX_REPO'] + os.pathsep if os.environ.get('VPX_REPO') else '') + ROOT
     env['PYTHONDONTWRITEBYTECODE'] = '1'
     env.setdefault('PYTHONHASHSEED', '0')
     t0 = time.time()
@@ -141,7 +143,9 @@ def main(argv=None):
     # 1b. engine self-test: symbolic regex matcher vs CPython on the regexes of the code under test
     selftest = None
     if hasattr(prop, 'regex_selftest'):
-        env = dict(os.environ, PYTHONPATH=ROOT, PYTHONDONTWRITEBYTECODE='1', VPX_PARAMS='{}')
+        env = dict(os.environ, PYTHONDONTWRITEBYTECODE='1', VPX_PARAMS='{}',
+                   PYTHONPATH=(os.environ['VPX_REPO'] + os.pathsep if os.environ.get('VPX_REPO')
+                               else '') + ROOT)
         r = subprocess.run([PY, '-m', 'vpx.selftest', 'vpx.props.' + pid.lower()], env=env,
                            capture_output=True, cwd=ROOT, timeout=1200)
         for line in r.stdout.decode(errors='replace').splitlines():
